@@ -92,6 +92,16 @@ class Replay:
                         sym.call_values[id(ev.node)] = ret
                 continue
             if ev.kind == "iter":
+                lp = ev.node
+                if isinstance(ev.data, int) and isinstance(lp.iter, (ast.Tuple, ast.List)) and ev.data < len(lp.iter.elts):
+                    # for x in (a, b, c): the loop variable is the element of this iteration
+                    el = lp.iter.elts[ev.data]
+                    if isinstance(lp.target, ast.Name):
+                        sym.bind(lp.target.id, sym.lin(el))
+                    elif isinstance(lp.target, (ast.Tuple, ast.List)) and isinstance(el, (ast.Tuple, ast.List)) and len(el.elts) == len(lp.target.elts):
+                        for t_, e_ in zip(lp.target.elts, el.elts):
+                            if isinstance(t_, ast.Name):
+                                sym.bind(t_.id, sym.lin(e_))
                 idiom = sum_loop_idiom(ev.node)
                 if idiom is not None:
                     acc, it = idiom
